@@ -521,6 +521,77 @@ theorem isZoneMasterB_of_master (hz : ∀ z e, e ∈ T.eps self z → T.zoneOf e
   · left
     simpa using hc
 
+theorem sent_reachable (h : e ∈ (relayFuel fuel T self o oz log).sent) : e ≠ self ∧ T.conn self e = true := by
+  obtain ⟨cz, r, _, hel⟩ := sent_eligible h
+  unfold eligible at hel
+  simp only [Bool.and_eq_true, bne_iff_ne, ne_eq] at hel
+  exact ⟨hel.1.1, hel.1.2⟩
+
+theorem sent_no_echo (hz : ∀ z e, e ∈ T.eps self z → T.zoneOf e = z) (h : e ∈ (relayFuel fuel T self o oz log).sent) :
+    o.client ≠ some e ∧ o.fromZone ≠ some (T.zoneOf e) := by
+  obtain ⟨cz, r, hmem, hel⟩ := sent_eligible h
+  rw [hz cz e hmem]
+  unfold eligible blocked at hel
+  simp only [Bool.and_eq_true, Bool.not_eq_true', Bool.or_eq_false_iff, beq_eq_false_iff_ne, ne_eq] at hel
+  exact ⟨hel.2.1.1.2, hel.2.1.2⟩
+
+theorem sent_master (hm : getMaster T self ≠ some self) (h : e ∈ (relayFuel fuel T self o oz log).sent) :
+    getMaster T self = some e := by
+  obtain ⟨cz, r, _, hel⟩ := sent_eligible h
+  unfold eligible blocked at hel
+  simp only [Bool.and_eq_true, Bool.not_eq_true', Bool.or_eq_false_iff, Bool.and_eq_false_imp, bne_iff_ne, ne_eq] at hel
+  have := hel.2.2
+  simp [hm] at this
+  exact this
+
+theorem sent_single_entry (hd : Detached T) (hz : ∀ z e, e ∈ T.eps self z → T.zoneOf e = z) {a b : Ep}
+    (ha : a ∈ (relayFuel fuel T self o oz log).sent) (hb : b ∈ (relayFuel fuel T self o oz log).sent)
+    (hab : T.zoneOf a = T.zoneOf b) (hf : T.zoneOf a ≠ T.zoneOf self) : a = b := by
+  obtain ⟨ha', _⟩ := sent_zone_of hd hz ha
+  obtain ⟨hb', _⟩ := sent_zone_of hd hz hb
+  rw [← hab] at hb'
+  exact eq_of_mem_length_le_one (relayZone_foreign_single T self o _ _ hf) ha' hb'
+
+theorem sent_nodup (wf : WF T self) : (relayFuel fuel T self o oz log).sent.Nodup := by
+  obtain ⟨rank, hr⟩ := wf.acyclic
+  rw [relayFuel_sent_eq]
+  have hkey : ∀ (cz : Zone), ∀ b ∈ (relayZone T self o (getMaster T self) cz).sent, T.zoneOf b = cz :=
+    fun cz b hb => wf.zone_of_mem cz b (relayZone_sent_eligible T self o _ cz hb).1
+  by_cases hg : T.isGlobal (targetZone T self oz) = true
+  · rw [allParents_parent_none T fuel _ (wf.global_no_parent _ hg)]
+    simp only [List.flatMap_cons, List.flatMap_nil, List.append_nil]
+    rw [relayOne_sent_global _ hg]
+    apply nodup_flatMap_key _ T.zoneOf
+    · rw [List.nodup_cons]
+      refine ⟨?_, wf.zones_nodup.filter _⟩
+      intro h
+      have := (List.mem_filter.mp h).2
+      simp only [beq_iff_eq] at this
+      exact Nat.lt_irrefl _ (hr _ _ this)
+    · intro cz _
+      exact relayZone_sent_nodup _ cz (wf.eps_nodup cz)
+    · intro cz _ b hb
+      exact hkey cz b hb
+  · have hg' : T.isGlobal (targetZone T self oz) = false := by simpa using hg
+    have hng : ∀ z ∈ targetZone T self oz :: allParents T fuel (targetZone T self oz), T.isGlobal z = false := by
+      intro z hz
+      rcases List.mem_cons.mp hz with rfl | hz'
+      · exact hg'
+      · obtain ⟨c, hc⟩ := mem_allParents_is_parent T fuel _ z hz'
+        exact wf.parent_not_global c z hc
+    apply nodup_flatMap_key _ T.zoneOf
+    · exact chain_nodup hr fuel _
+    · intro z hz
+      rw [relayOne_sent_nonglobal _ (hng z hz)]
+      split
+      · exact relayZone_sent_nodup _ z (wf.eps_nodup z)
+      · exact List.nodup_nil
+    · intro z hz b hb
+      rw [relayOne_sent_nonglobal _ (hng z hz)] at hb
+      split at hb
+      · exact hkey z b hb
+      · simp at hb
+
 end Sent
 
 
@@ -545,11 +616,13 @@ theorem deliver_cases (T : Topo) (oz : Zone) (n : Net) (i : Nat) :
       ((accept T oz (originOf T msg) = true ∧
         (deliver T oz n i).inflight = n.inflight.eraseIdx i ++ emit T msg.to (originOf T msg) oz ∧
         (deliver T oz n i).processed = n.processed ++ [msg.to] ∧
-        (deliver T oz n i).discarded = n.discarded) ∨
+        (deliver T oz n i).discarded = n.discarded ∧
+        (deliver T oz n i).accepted = n.accepted ++ [msg]) ∨
        (accept T oz (originOf T msg) = false ∧
         (deliver T oz n i).inflight = n.inflight.eraseIdx i ∧
         (deliver T oz n i).processed = n.processed ∧
-        (deliver T oz n i).discarded = n.discarded ++ [msg])) := by
+        (deliver T oz n i).discarded = n.discarded ++ [msg] ∧
+        (deliver T oz n i).accepted = n.accepted)) := by
   unfold deliver
   cases h : n.inflight[i]? with
   | none => left; rfl
@@ -615,7 +688,7 @@ theorem entInv_start (wf : NetWF T) (orig : Ep) (oz : Zone) : EntInv T orig oz (
 
 theorem entInv_step (wf : NetWF T) (orig : Ep) (oz : Zone) (n : Net) (i : Nat) (h : EntInv T orig oz n) :
     EntInv T orig oz (deliver T oz n i) := by
-  rcases deliver_cases T oz n i with heq | ⟨msg, hmem, ⟨_, hi, hp, hd⟩ | ⟨_, hi, hp, hd⟩⟩
+  rcases deliver_cases T oz n i with heq | ⟨msg, hmem, ⟨_, hi, hp, hd, _⟩ | ⟨_, hi, hp, hd, _⟩⟩
   · rw [heq]; exact h
   · have hto := h.inflight msg hmem
     refine ⟨?_, ?_, ?_⟩
